@@ -351,6 +351,18 @@ func (p *connectedPlayer) setInFlightConnection(s *serverConnection) {
 	p.connInFlight = s
 }
 
+// claimInFlightConnection makes s the connection in flight unless another one
+// already is; the check and the store are one critical section.
+func (p *connectedPlayer) claimInFlightConnection(s *serverConnection) bool {
+	p.mu.Lock()
+	defer p.mu.Unlock()
+	if p.connInFlight != nil {
+		return false
+	}
+	p.connInFlight = s
+	return true
+}
+
 func (c *connectionRequest) Server() RegisteredServer {
 	return c.server
 }
@@ -400,7 +412,10 @@ func (c *connectionRequest) internalConnect(ctx context.Context) (result *connec
 	}
 
 	conn := newServerConnection(server, c.previousServer, c.player)
-	c.player.setInFlightConnection(conn)
+	if !c.player.claimInFlightConnection(conn) {
+		// Another request became the connection in flight after the check above.
+		return plainConnectionResult(InProgressConnectionStatus, newDest), nil
+	}
 	defer c.resetIfInFlightIs(conn)
 	return conn.connect(ctx)
 }
